@@ -15,6 +15,10 @@ import (
 	"github.com/yandex/pandora/core"
 	"github.com/yandex/pandora/zverif/hutil"
 	"github.com/yandex/pandora/zverif/vs"
+	"github.com/yandex/pandora/core/engine"
+	"github.com/yandex/pandora/core/schedule"
+	"github.com/yandex/pandora/lib/monitoring"
+	"go.uber.org/zap"
 )
 
 // ---------------------------------------------------------------------------
@@ -236,6 +240,8 @@ type C08Cell struct {
 	Bound     int    `json:"bound"`
 	CancelAny bool   `json:"cancel_any,omitempty"`
 	NoMatch   bool   `json:"no_match,omitempty"` // chosencases lists a tag no entry carries: nothing is ever delivered
+	Engine    bool   `json:"engine,omitempty"`   // the provider feeds a real engine.Engine pool with Consumers instances
+	Tokens    int    `json:"tokens,omitempty"`   // engine cells: tokens of the pool's (shared, once) RPS profile
 }
 
 func (c C08Cell) Name() string {
@@ -245,6 +251,9 @@ func (c C08Cell) Name() string {
 	}
 	if c.NoMatch {
 		s += "|chosencases-match-nothing"
+	}
+	if c.Engine {
+		s += fmt.Sprintf("|engine|tokens=%d", c.Tokens)
 	}
 	return s
 }
@@ -264,7 +273,76 @@ type c08run struct {
 	cell C08Cell
 	k    *kind
 	drv  *Drv
+	ew   *EngWorld
 	cerr error
+}
+
+// engineScenario: the provider under test inside a real engine pool (mock gun and aggregator).
+func (r *c08run) engineScenario(x *vs.X, p core.Provider) func(end, msg string) error {
+	c := r.cell
+	w := &EngWorld{ByGun: map[int][]any{}, Extract: r.k.Extract}
+	r.ew = w
+	metrics := engine.Metrics{Request: &monitoring.Counter{}, Response: &monitoring.Counter{}, InstanceStart: &monitoring.Counter{}, InstanceFinish: &monitoring.Counter{}}
+	eng := engine.New(zap.NewNop(), metrics, engine.Config{Pools: []engine.InstancePoolConfig{{
+		ID:              "p",
+		Provider:        EngProv{P: p, W: w},
+		Aggregator:      EngAgg{W: w},
+		NewGun:          func() (core.Gun, error) { return &EngGun{W: w}, nil },
+		NewRPSSchedule:  func() (core.Schedule, error) { return schedule.NewOnce(int64(c.Tokens)), nil },
+		StartupSchedule: schedule.NewOnce(int64(c.Consumers)),
+		DiscardOverflow: true,
+	}}})
+	ctx, cancel := context.WithCancel(context.Background())
+	x.OnAbort(cancel)
+	x.Deadline = time.Now().Add(time.Hour)
+	vs.Go("engine", func() { StartEngine(ctx, cancel, eng, w) })
+	n := bound(c.Limit, c.Passes, c.Entries)
+	return func(end, msg string) error {
+		defer cancel()
+		if w.Panic != "" {
+			return fmt.Errorf("PANIC: engine goroutine panicked: %s", w.Panic)
+		}
+		if end == vs.EndCap {
+			return nil
+		}
+		if end == vs.EndSpin {
+			return fmt.Errorf("SPIN: %s; %d shots, Engine.Run returned=%v, provider Run returned=%v", msg, len(w.Items), w.Returned, w.ProvDone)
+		}
+		if end != vs.EndComplete || !w.Waited {
+			return fmt.Errorf("BLOCKED: execution ended with %s (%s): Engine.Run returned=%v err=%v, Engine.Wait returned=%v, provider Run returned=%v err=%v, %d shots",
+				end, msg, w.Returned, w.Err, w.Waited, w.ProvDone, w.ProvErr, len(w.Items))
+		}
+		if w.Err != nil {
+			return fmt.Errorf("RUNERR: Engine.Run ended with %q (provider Run: %v); a pool that runs out of ammo or schedule ends successfully", w.Err, w.ProvErr)
+		}
+		if !w.ProvDoneAtWait {
+			return fmt.Errorf("BLOCKED: Engine.Wait returned while the provider's Run had not returned")
+		}
+		want := c.Tokens
+		if n >= 0 && n < want {
+			want = n
+		}
+		if len(w.Items) != want || w.Reports != want {
+			return fmt.Errorf("COUNT: %d shots (%d reports) of a pool with %d tokens over a provider bounded to %d items (limit=%d, passes x entries=%dx%d)", len(w.Items), w.Reports, c.Tokens, n, c.Limit, c.Passes, c.Entries)
+		}
+		// one instance shoots the items in file order; with several instances up to (instances-1) acquired
+		// items may stay unfired (an instance that got an item but no token), so what was shot is a
+		// sub-multiset of the first shots+instances-1 items
+		avail := map[string]int{}
+		for i := 0; i < len(w.Items)+c.Consumers-1 && (n < 0 || i < n); i++ {
+			avail[fmt.Sprint(i%c.Entries)]++
+		}
+		for i, it := range w.Items {
+			g := fmt.Sprint(it)
+			if c.Consumers == 1 && g != fmt.Sprint(i%c.Entries) {
+				return fmt.Errorf("ORDER: shot %v, file order wrapping around starts 0..%d", w.Items, c.Entries-1)
+			}
+			if avail[g]--; avail[g] < 0 {
+				return fmt.Errorf("ORDER: shot %v: item %s was shot more often than the provider can have delivered it by then", w.Items, g)
+			}
+		}
+		return nil
+	}
 }
 
 func (r *c08run) scenario(x *vs.X) func(end, msg string) error {
@@ -278,6 +356,9 @@ func (r *c08run) scenario(x *vs.X) func(end, msg string) error {
 	r.cerr, r.drv = err, nil
 	if err != nil {
 		return func(end, msg string) error { return fmt.Errorf("ERROR: provider construction failed: %v", err) }
+	}
+	if c.Engine {
+		return r.engineScenario(x, p)
 	}
 	ctx, cancel := context.WithCancel(context.Background())
 	x.OnAbort(cancel)
@@ -432,6 +513,40 @@ func c08cells(thorough bool) []C08Cell {
 			}
 		}
 	}
+	// engine cells: the provider inside a real engine pool - more tokens than ammo (the instances observe the
+	// end of ammo), fewer tokens than ammo (the pool cancels the provider when its instances are done)
+	for _, k := range kinds() {
+		if k.Name == "json+tail" {
+			continue
+		}
+		if !thorough && (strings.Contains(k.Name, "+chosencases") || strings.Contains(k.Name, "+bigline") || strings.Contains(k.Name, "(decoder=")) {
+			continue // quick: the plain and the preloading variant of every provider family
+		}
+		for _, lp := range [][2]int{{0, 1}, {1, 0}, {2, 3}, {3, 1}, {0, 2}, {0, 0}} {
+			for e := 1; e <= 2; e++ {
+				if !thorough && (lp == [2]int{2, 3} || lp == [2]int{0, 2} || (e == 1 && lp != [2]int{0, 1})) {
+					continue
+				}
+				n := bound(lp[0], lp[1], e)
+				for inst := 1; inst <= 2; inst++ {
+					if inst == 2 && !thorough && (e == 1 || !(lp == [2]int{0, 1} || lp == [2]int{3, 1}) || !(k.Name == "uri" || k.Name == "grpc/json" || k.Name == "http/scenario")) {
+						continue // quick: two instances for three provider families and two bounded settings
+					}
+					toks := []int{1, n + 2}
+					if n < 0 {
+						toks = []int{3}
+					}
+					for _, t := range toks {
+						b := 0 // one instance, and two instances in quick: every select ready-case choice; thorough: + 1 preemption
+						if inst == 2 && thorough {
+							b = 1
+						}
+						out = append(out, C08Cell{Kind: k.Name, Limit: lp[0], Passes: lp[1], Entries: e, Consumers: inst, Bound: b, Engine: true, Tokens: t})
+					}
+				}
+			}
+		}
+	}
 	// providers that run ahead into a buffered sink (100 items): bounds beyond the buffer, so that the
 	// provider meets a full sink and the last items go through its blocking path
 	for _, k := range kinds() {
@@ -479,6 +594,9 @@ func runC08(t *testing.T, spec *hutil.Spec, out *hutil.Out) {
 		rn.e.OnExec = func(res *vs.Result) {
 			if r.drv != nil {
 				out.Outcome(c.Name(), fmt.Sprintf("%v|%v|%v", r.drv.Items, r.drv.RunErr, r.drv.ByConsumer))
+			}
+			if c.Engine && r.ew != nil {
+				out.Outcome(c.Name(), fmt.Sprintf("%v|%v|%v", r.ew.Items, r.ew.Err, r.ew.ByGun))
 			}
 		}
 		v, complete := rn.explore(c.Bound, r.scenario)
